@@ -266,6 +266,11 @@ func (g *gen) fill(v reflect.Value, ifDepth int) {
 			if g.rng.Intn(4) == 0 {
 				x = -x
 			}
+			if g.rng.Intn(3) == 0 {
+				// small values of either sign: the declared constants of the enumeration-like integer types (a copy method that
+				// branches on such a field - say on primitive.ValueTypeNull = -1 / ValueTypeUnset = -2 - is only exercised by them)
+				x = int64(g.rng.Intn(7) - 3)
+			}
 			v.SetInt(x)
 		}
 	case reflect.Uint, reflect.Uint8, reflect.Uint16, reflect.Uint32, reflect.Uint64, reflect.Uintptr:
